@@ -59,6 +59,8 @@ PROPS = {
     "C20": P("w3", quick_runs=2500, thorough_runs=150000, quick_budget_s=100, thorough_budget_s=1500, required_probes=["c20.judged"]),
     "C21": P("w3", quick_runs=2500, thorough_runs=150000, quick_budget_s=100, thorough_budget_s=1500, required_probes=["c21.judged", "c21.create-acked"],
              level_note="brokers' EtcdStores only at this commit: the operator's snapshot merge is not in this world"),
+    "C19": P("w1", quick_runs=2500, thorough_runs=120000, quick_budget_s=120, thorough_budget_s=1500, required_probes=["c19.acked-append-judged", "c19.not-leader"],
+             level_text="2-3 real broker handlers with real EtcdStores and lease managers on one simulated etcd and one simulated S3; the lease state is read from the etcd stub at the scheduler step each AppendBatch executes (woven site observer)"),
 }
 
 NA = {
